@@ -29,6 +29,7 @@ WIDTHS = {
     'int(arch.O)': ('int(arch.O)', 'O'), 'int(arch.L)': ('int(arch.L)', 'L'),
 }
 
+RECV_WIDTHS = set()
 SOKINDS = {}
 for _f in glob.glob(PKG + '/shr_*.go'):
     _src = open(_f).read()
@@ -104,6 +105,12 @@ def fields_of(body):
             al = re.search(r'\b%s := (int\(arch\.(?:O|L|R|Rsize)\))\n' % re.escape(w), body)
             if al and al.group(1) in WIDTHS:
                 w = al.group(1)
+            # a width kept in the opcode value itself (dynamic opcodes): name := op.field
+            al2 = re.search(r'\b%s := (op\.\w+)\n' % re.escape(w), body)
+            if al2 and m.group('num'):
+                fields.append(('imm', int(m.group('nk')), al2.group(1)))
+                RECV_WIDTHS.add(al2.group(1))
+                continue
         if w not in WIDTHS and not w.isdigit():
             return None
         wexpr = WIDTHS[w][0] if w in WIDTHS else w
@@ -122,7 +129,10 @@ def fields_of(body):
     if any('loc' == WIDTHS.get(w, ('', ''))[1] for w in []):
         pass
     # anything that smells like another operand source we do not understand
-    if re.search(r'soLists|Shared_constraints|strconv\.Atoi|op\.\w+', body):
+    body_wo = body
+    for rw in RECV_WIDTHS:
+        body_wo = re.sub(r'\w+ := %s\n' % re.escape(rw), '', body_wo)
+    if re.search(r'soLists|Shared_constraints|strconv\.Atoi|op\.\w+', body_wo):
         return None
     if len(fields) != nwords:
         return None
@@ -144,7 +154,7 @@ contracts = []
 harness = []
 listed = []
 notdone = []
-for f in sorted(glob.glob(PKG + '/op_*.go')):
+for f in sorted(glob.glob(PKG + '/op_*.go')) + sorted(x for x in glob.glob(PKG + '/dynop_*.go') if not x.endswith('_test.go') and not x.endswith('dynop_call.go')):
     src = open(f).read()
     m = re.search(r'^type (\w+) struct ?\{', src, re.M)
     if not m:
@@ -174,7 +184,9 @@ for f in sorted(glob.glob(PKG + '/op_*.go')):
     exact = 'arch.Opcodes_bits() + len(result) == arch.Max_word()'
     c = []
     c.append('//@ func (op %s) Assembler(arch *Arch, words []string) (string, error)' % T)
-    c.append('//@   requires wfArch(arch)')
+    recvw = sorted(set(w for (kind, k, w) in fields if w.startswith('op.')))
+    recvreq = ''.join(' && 0 <= %s && %s <= 62' % (w, w) for w in recvw)
+    c.append('//@   requires wfArch(arch)' + recvreq)
     if nwords >= 0:
         c.append('//@   ensures nwords: result1 == nil ==> len(words) == %d' % nwords)
     else:
@@ -209,7 +221,7 @@ for f in sorted(glob.glob(PKG + '/op_*.go')):
     c.append('')
     # Disassembler
     widths_le = ' && '.join('%s <= 62' % w for (kind, k, w) in fields if kind == 'imm' or kind.startswith('so:'))
-    req = 'wfArch(arch) && len(instr) >= %s' % (total if total != '0' else '0')
+    req = 'wfArch(arch)' + recvreq + ' && len(instr) >= %s' % (total if total != '0' else '0')
     if widths_le:
         req += ' && ' + widths_le
     pieces = []
@@ -255,8 +267,9 @@ for f in sorted(glob.glob(PKG + '/op_*.go')):
             rtext = 'cat(cat(%s, " "), %s)' % (rtext, p)
     else:
         rtext = '""'
-    c.append('//@ func verifRoundTrip%s(arch *Arch, words []string) (string, bool)' % T)
-    rreq = 'wfArch(arch)'
+    hparams = ('op %s, ' % T if recvw else '') + 'arch *Arch, words []string'
+    c.append('//@ func verifRoundTrip%s(%s) (string, bool)' % (T, hparams))
+    rreq = 'wfArch(arch)' + recvreq
     if widths_le:
         rreq += ' && ' + widths_le
     c.append('//@   requires ' + rreq)
@@ -273,9 +286,8 @@ for f in sorted(glob.glob(PKG + '/op_*.go')):
     c.append('')
     contracts.append('\n'.join(c))
     harness.append('''// verifRoundTrip%(T)s: assemble, and when the word has the architecture's width, disassemble again.
-func verifRoundTrip%(T)s(arch *Arch, words []string) (string, bool) {
-	op := %(T)s{}
-	w, err := op.Assembler(arch, words)
+func verifRoundTrip%(T)s(%(HP)s) (string, bool) {
+%(OPDECL)s	w, err := op.Assembler(arch, words)
 	if err != nil || arch.Opcodes_bits()+len(w) != arch.Max_word() {
 		return "", false
 	}
@@ -285,7 +297,7 @@ func verifRoundTrip%(T)s(arch *Arch, words []string) (string, bool) {
 	}
 	return text, true
 }
-''' % {'T': T})
+''' % {'T': T, 'HP': hparams, 'OPDECL': '' if recvw else '\top := %s{}\n' % T})
     listed.append((T, fields))
 
 hdr = '''//go:build verif
